@@ -144,6 +144,22 @@ theorem facts_layout :
     subSurfaceFields = ["Origin:RelativePoint", "Surface:Surface", "ZIndex:int"] := by
   decide +kernel
 
+open VaxisModel.Gen.SurfaceFacts in
+/-- The size arguments of every `vxfw.NewSurface` call of a widget, as terms.  The model *evaluates*
+the ones of Center, TextField and Dynamic (`newSurfaceFor`: `Lemmas.Surface.surface_center`, `…_field`,
+`…_dynamic`, `…_dynamic_cursor`); Text / RichText allocate what findContainerSize returned. -/
+theorem facts_surface_sizes :
+    surfaceSizes = [
+      ("center.Center.Draw", .maxW, .maxH),
+      ("list.Dynamic.Draw", .maxW, .maxH),
+      ("list.Dynamic.Draw", .maxW, .childH),
+      ("richtext.RichText.Draw", .sizeW, .sizeH),
+      ("richtext.RichText.drawSoftwrap", .sizeW, .sizeH),
+      ("text.Text.Draw", .sizeW, .sizeH),
+      ("text.Text.drawSoftwrap", .sizeW, .sizeH),
+      ("textfield.TextField.Draw", .maxW, .lit 1)] := by
+  decide
+
 /-- Text / RichText (either wrap mode), any scanned lines, any constraint: the surface is no
 larger than the maximum and Draw does not panic. -/
 theorem size_le_max_text (m : TextMode) (hm : m.sizeStrict = true) (c : Ctx) (lines : List (List Cell)) :
